@@ -110,10 +110,10 @@ End times.
 (* ---------------------------------------------------------------- refutations (faithful model) *)
 Definition o_cpu_only (c : Z) : oval :=
   {| o_statm := [0; 0; 0]; o_pf := [0; 0]; o_cycle := [0; 0]; o_cache := [0; 0]; o_branch := [0; 0];
-     o_cpu := c; o_var := 0 |}.
+     o_cpu := c; o_var := 0; o_asz := None |}.
 Definition o_pf_only (mn : N) : oval :=
   {| o_statm := [0; 0; 0]; o_pf := [0; mn]; o_cycle := [0; 0]; o_cache := [0; 0]; o_branch := [0; 0];
-     o_cpu := 0%Z; o_var := 0 |}.
+     o_cpu := 0%Z; o_var := 0; o_asz := None |}.
 
 (* (1) watch events of a call that the time filter drops are dropped with it: f1 (10 ns, threshold 50 ns)
    and the two cpu changes observed at its entry and exit are absent; the thread's first event stays *)
